@@ -72,6 +72,8 @@ def gen_fund(r: random.Random, profile: str = "scripted") -> Dict[str, Any]:
                     ops[-1]["v"] = r.choice([0.8, 1.2])
         if r.random() < 0.2:
             ops.append({"k": "query", "times": [r.randrange(10 ** 6) for _ in range(3)]})
+        if r.random() < 0.25:
+            ops.append(gen_ahead(r))
     late = []
     if r.random() < 0.25:
         for _ in range(r.randint(1, 2)):
@@ -81,6 +83,26 @@ def gen_fund(r: random.Random, profile: str = "scripted") -> Dict[str, Any]:
             "f": {"markets": markets, "corr": corr, "late": late}, "fops": ops,
             "knobs": {"generation_chunk": chunk, "storage_chunk": r.choice([None, 3, 7]) if chunk else None},
             "scripted_normal": profile == "scripted"}
+
+
+def gen_ahead(r: random.Random) -> Dict[str, Any]:
+    """offsets (relative to the current time, negative = past) in ascending, descending or shuffled order."""
+    u = r.random()
+    if u < 0.3:
+        a, b = sorted((r.randint(-6, 3), r.randint(1, r.choice([4, 12, 130]))))
+        offs = list(range(a, b + 1))
+        if r.random() < 0.6:
+            offs.reverse()
+        form = r.choice(["range", "list", "tuple"])
+    else:
+        offs = [r.randint(-10, r.choice([3, 8, 40, 150])) for _ in range(r.randint(1, 6))]
+        v = r.random()
+        if v < 0.3:
+            offs.sort()
+        elif v < 0.6:
+            offs.sort(reverse=True)
+        form = r.choice(["list", "tuple"])
+    return {"k": "ahead", "offs": offs, "form": form}
 
 
 def gen_moments(r: random.Random, profile: str = "moments") -> Dict[str, Any]:
